@@ -695,6 +695,11 @@ func hsRunRawCase(c *checkCtx, cs hsCase, st *hsStats, noise bool) {
 	}
 	defer raw.close()
 	defer raw.releaseShm()
+	if (cs.Idx+cs.Round)%3 == 1 {
+		// the raw peer's messages reach the library end in small pieces (as a stream transport may deliver them)
+		raw.frag = 1 + (cs.Idx+cs.Round)%5
+		c.count("raw_cases_with_fragmented_delivery", 1)
+	}
 	if !libIsClient {
 		if err := raw.createShm(prefix, cs.Memfd, conf.QueueCap, conf.ShareMemoryBufferCap, conf.BufferSliceSizes); err != nil {
 			libConn.Close()
@@ -1464,6 +1469,11 @@ func hsRunPairing(c *checkCtx, cs hsCase, st *hsStats, noise bool) {
 		}
 		defer raw.close()
 		defer raw.releaseShm()
+		if cs.Round%2 == 1 {
+			// a healthy pairing must also agree when the client's messages arrive in small pieces
+			raw.frag = 1 + (cs.Idx+cs.Round)%7
+			c.count("pairings_with_fragmented_delivery", 1)
+		}
 		conf := hsConf(prefix, cs.Memfd, hsOkTO)
 		if err := raw.createShm(prefix, cs.Memfd, conf.QueueCap, conf.ShareMemoryBufferCap, conf.BufferSliceSizes); err != nil {
 			c.inconclusiveCase(cs.name(), "raw createShm: "+err.Error())
@@ -1478,7 +1488,18 @@ func hsRunPairing(c *checkCtx, cs hsCase, st *hsStats, noise bool) {
 		hits := &hsHits{}
 		hsReg.Store(conf, hits)
 		defer hsReg.Delete(conf)
-		sess, cliErr = newSession(conf, h.conn, true)
+		cliConn := h.conn
+		if cs.Round%2 == 1 && !cs.Memfd && cs.Fault == "none" {
+			// the byte stream between the two library ends goes through a relay that forwards it in small pieces: a healthy
+			// pairing must agree all the same (descriptor passing cannot cross a relay, so file mappings only)
+			if a, b, p, err := connPair(false); err == nil {
+				os.Remove(p)
+				cliConn = a
+				hsRelay(b, h.conn, 1+(cs.Idx+cs.Round)%5)
+				c.count("pairings_with_fragmented_delivery", 1)
+			}
+		}
+		sess, cliErr = newSession(conf, cliConn, true)
 		if sess != nil {
 			cliVer = int(sess.communicationVersion)
 			defer func() {
@@ -1840,4 +1861,36 @@ func checkHandshake(c *checkCtx) {
 			c.noObservation(fmt.Sprintf("%d of %d cases of the fault list were never reached", len(missing), len(list)))
 		}
 	}
+}
+
+// hsRelay forwards the byte stream between two connections in pieces of at most `piece` bytes, with a short pause after each.
+func hsRelay(a, b net.Conn, piece int) {
+	pump := func(dst, src net.Conn) {
+		buf := make([]byte, 4096)
+		for {
+			n, err := src.Read(buf)
+			for off := 0; off < n; {
+				end := off + piece
+				if end > n {
+					end = n
+				}
+				if _, werr := dst.Write(buf[off:end]); werr != nil {
+					src.Close()
+					dst.Close()
+					return
+				}
+				off = end
+				if off < 256 { // the handshake is small; later traffic is forwarded without pauses
+					time.Sleep(150 * time.Microsecond)
+				}
+			}
+			if err != nil {
+				dst.Close()
+				src.Close()
+				return
+			}
+		}
+	}
+	go pump(a, b)
+	go pump(b, a)
 }
